@@ -146,10 +146,27 @@ def run(ctx):
     for ov in sets:
         for arg in ARGS:
             e = expected_overload(ov, arg)
-            funcs = '\n'.join('empty tag(%s p) { write(%d); }' % (p, i) for i, p in enumerate(ov))
-            src = '%s\nempty @is_you() { %s tag(%s); write(\'.\'); }' % (funcs, decls, arg[0])
+            # the caller is declared before, between or after the overloads (declaration order of the overloads is what the rule
+            # refers to, wherever the call is written)
+            fl = ['empty tag(%s p) { write(%d); }' % (p, i) for i, p in enumerate(ov)]
+            fl.insert(k % (len(ov) + 1), 'empty @is_you() { %s tag(%s); write(\'.\'); }' % (decls, arg[0]))
+            src = '\n'.join(fl)
             cid = 'o%d' % k; k += 1
             jobs.append((cid, src, [], 2, 200, False, 100000)); want[cid] = e
+    # arguments with several coercible, non-exact candidates (array literals; int literals that fit a byte): every ordered
+    # selection of candidate parameter types x every position of the caller among the overloads
+    multi = [(('[1, 2]', 'lit', None), ['const int[]', 'int[]', 'const byte[]', 'byte[]']), (('5', 'int', True), ['int', 'byte']),
+             (('(bv + 1)', 'int', True), ['int', 'byte'])]
+    for arg, cands in multi:
+        for n in (2, 3):
+            for ov in itertools.permutations(cands, n):
+                ov = list(ov)
+                e = expected_overload(ov, arg)
+                for pos in range(len(ov) + 1):
+                    fl = ['empty tag(%s p) { write(%d); }' % (p, i) for i, p in enumerate(ov)]
+                    fl.insert(pos, 'empty @is_you() { %s tag(%s); write(\'.\'); }' % (decls, arg[0]))
+                    cid = 'm%d' % k; k += 1
+                    jobs.append((cid, '\n'.join(fl), [], 2, 200, False, 100000)); want[cid] = e
     cases, rejected = suites.compile_cases(jobs)
     res = hidlib.run_parallel(cases)
     rej = dict(rejected)
